@@ -110,6 +110,8 @@ type Exec struct {
 	smMemo     map[string][]*smEntry
 	puDone     map[*Term]bool
 	regionSeq  int
+	symDecs    map[string]*Object
+	lowerOf    map[*Term]StrVal
 	pureApps   map[string][]pureAppRec
 	untrackedAppend bool // an append whose destination is not an append-chain from a parameter / nil / fresh slice
 	catDirty   bool // some instruction stored into byte memory in place
